@@ -6,7 +6,7 @@ READY = True
 META = {
     "technique": "Lean 4 proof (model of loader::safe_join built from the segment rules extracted from the source, PathBuf::push incl. its replace-on-absolute branch, Path::components, lexical normalisation, abstract directory tree, path_loader as a function of (configured base, file system at load time), the name-keyed template store over arbitrary file-system histories) + exhaustive correspondence of the real safe_join with the model over the quantifier's segment alphabet + canary oracle on the real path_loader over a scratch tree, through 10 entry points, Environment::templates, AutoReloader, and a loader-lifecycle axis",
     "category": "proof",
-    "text": "Kernel-checked theorems: whenever the model of safe_join answers a path, that path has the base as literal prefix, its components are the base's components followed by the name's non-empty segments, none of which is '.', '..', hidden or contains '/' or '\\'; hence lexical normalisation keeps the base as prefix and, on every directory tree without symlinks, the path resolves to the base directory or beneath it; any '.', '..', hidden or backslash segment yields None; the absolute-argument branch of PathBuf::push is unreachable. The loader keeps the configured base verbatim whatever the disk looks like at construction (loader_base_is_configured); every path it hands to the file system and every content it returns is confined to the configured base in the file system of the load (loader_reads_confined, loader_found_confined); with the name-keyed store in front, for EVERY history of file systems (base created later, removed, recreated, working directory changed, clear_templates) every answer and everything Environment::templates lists is what some snapshot held at safe_join(configured base, name) (loader_history_confined, loader_history_confined_after_clear); without a readable file under the base the only answers are missing/unreadable. Ties: the segment rules of the model are regenerated from loader.rs; path_loader's base binding, its fs:: calls and the engine's template-fetching call sites are regenerated and checked by theorems; the real safe_join is compared with the model byte for byte on every name over the segment alphabet for 13 spellings of the base plus noise; the real path_loader is compared with (model, disk answer at the joined path, store) through get_template, include, import, from-import, extends, include lists, the documented join callback, State::get_template from a host function, includes in macros and in loader-backed templates, Environment::templates and AutoReloader, on a static tree and on 10 lifecycle scenarios x 7 spellings of the base; the oracle requires every returned content to carry the marker of a file whose canonical path is beneath the canonical configured base (never a canary, nothing at all while the base has not existed).",
+    "text": "Kernel-checked theorems: whenever the model of safe_join answers a path, that path has the base as literal prefix, its components are the base's components followed by the name's non-empty segments, none of which is '.', '..', hidden or contains '/' or '\\'; hence lexical normalisation keeps the base as prefix and, on every directory tree without symlinks, the path resolves to the base directory or beneath it; any '.', '..', hidden or backslash segment yields None; the absolute-argument branch of PathBuf::push is unreachable. The loader keeps the configured base verbatim whatever the disk looks like at construction (loader_base_is_configured); every path it hands to the file system and every content it returns is confined to the configured base in the file system of the load (loader_reads_confined, loader_found_confined); with the name-keyed store in front, for EVERY history of file systems (base created later, removed, recreated, working directory changed, clear_templates) every answer and everything Environment::templates lists is what some snapshot held at safe_join(configured base, name) (loader_history_confined, loader_history_confined_after_clear); without a readable file under the base the only answers are missing/unreadable. Ties: the segment rules of the model are regenerated from loader.rs; path_loader's base binding, its fs:: calls and the engine's template-fetching call sites are regenerated and checked by theorems; the real safe_join is compared with the model byte for byte on every name over the segment alphabet for 13 spellings of the base plus noise; the real path_loader is compared with (model, disk answer at the joined path, store) through get_template, include, import, from-import, extends, include lists, the documented join callback, State::get_template from a host function, includes in macros and in loader-backed templates, Environment::templates and AutoReloader, on a static tree and on 10 lifecycle scenarios x 7 spellings of the base; a syscall-level oracle runs the loader under strace and requires that, between the sentinel probes bracketing a request, the only path handed to the kernel is the one safe_join designates (opened once) and that nothing outside the base is opened; every canary outside the base has decorated namesakes (.j2/.html/.txt/.jinja/.tmpl/…, <name>/index.html, other case, blanks, other Unicode normal forms) and the undecorated stems are requested by absolute and relative spellings (the scratch tree sits at a path without dot segments so that absolute canary names get past the hidden-segment rule); the oracle requires every returned content to carry the marker of a file whose canonical path is beneath the canonical configured base (never a canary, nothing at all while the base has not existed).",
     "design_ref": "DESIGN.md §3 C17",
     "level_note": "Trusted: Lean kernel; hand transcription of the loop of loader::safe_join (the rules themselves are extracted) and of std's Unix PathBuf::push / Path::components into MJ/Model/Path.lean (validated byte-for-byte against the real functions, the std ones also outside the region safe_join reaches); the step from 'components are plain names' to 'the OS resolves beneath the base' is proved on an abstract tree without symlinks (the property excludes symlinks) and validated on a real tree; Loader.load / Env.get are three-line transcriptions of path_loader's closure and LoaderStore::get, tied by the extracted shape table and validated on every stream; State::get_template/join_template_path are validated by the oracle streams (the Lean statement get_template_passes_name is about a three-line model; the call sites are tied by entry_sites_covered). Unix only: on Windows other separators/prefixes exist. minijinja-cli has its own loader (no safe_join, reads arbitrary paths by design) and minijinja-embed does not touch the disk at run time: both are outside this property.",
 }
@@ -488,7 +488,9 @@ def run(r):
               "{'', '.', '..', '...', 'a', '.a', 'a.', 'a..b', 'a\\\\b', '..\\\\a', NUL, '%2e%2e', U+2024 x2, U+FF0E x2, 'a' x 256, 'only_outside.txt' (a plain name that exists in every ancestor of the base, never beneath it)} "
               "+ targeted spellings of canary paths (absolute, climbing, encoded, look-alike separators) + every canary file's base name and its "
               "name relative to each directory above it (plain, rooted, trailing/doubled slashes, below a/ and a/a/; incl. names that exist "
-              "only outside the base) + random char/byte noise; loader forms: get_template, include, import, from-import, extends, include list, "
+              "only outside the base) + decorated-namesake requests (ghost stems whose only existing spellings are decorated canaries outside "
+              "the base) + random char/byte noise; syscall oracle (strace) over targeted names + all 1..2-segment (quick) / 1..3-segment "
+              "(thorough) alphabet names + noise, via the loader closure (absolute base) and {% include %} (relative base); loader forms: get_template, include, import, from-import, extends, include list, "
               "documented join callback, State::get_template from a function, include in a macro, include in a loader-backed template, "
               "Environment::templates; lifecycle stream: 10 scenarios (base exists / created after construction / never exists / removed and "
               "recreated / removed / clear_templates / chdir between construction and loads x3 / empty and '.' base) x 7 spellings of the "
@@ -496,6 +498,7 @@ def run(r):
               "each name against the scratch tree's base (absolute spelling) and one of 12 other bases (4 more spellings of the "
               "scratch base, 8 disk-free bases) in rotation; a name is non-trivial when it contains '/', '.' or '\\\\'")
     r.assumptions = ["Unix path semantics (separator '/', no prefixes); symbolic links inside the base are out of scope per the statement",
+                     "the syscall oracle needs strace (skipped and recorded in the evidence when it is not installed)",
                      "names longer than 5 segments behave as the model predicts (proved for the model for every name and base)"]
     r.regen_tables(needed=["C17_SAFE_JOIN_RULES", "C17_PATH_LOADER_SHAPE", "C17_LOADER_ENTRY_SITES"])
     r.lean_prove("MJ.Props.C17", "MJ/Audit/C17.lean", extra_targets=["drive_c17"])
